@@ -19,6 +19,7 @@ import (
 	"github.com/prometheus/prometheus/tsdb/chunkenc"
 	"github.com/prometheus/prometheus/tsdb/chunks"
 	"github.com/prometheus/prometheus/tsdb/index"
+	"github.com/prometheus/prometheus/tsdb/tombstones"
 
 	"verif/harness/fixtures"
 	"verif/harness/simkit"
@@ -53,6 +54,8 @@ type mseries struct {
 	Replica int
 }
 
+const maxTSDBStores = 2
+
 const (
 	kindTSDB     = "tsdb"
 	kindScripted = "scripted"
@@ -78,7 +81,7 @@ type mstore struct {
 	NoAdvertise bool
 
 	blockDir string
-	block    *tsdb.Block
+	block    *blockDB
 }
 
 type dataset struct {
@@ -103,6 +106,8 @@ type genOpts struct {
 	ReplicaModes []string // subset of "none","ext","stored"
 	MultiExt     bool     // scripted stores may hold several external label sets / none advertised (C05)
 	ForceKind    string
+	FullCopies   bool // every copy of a series holds all samples of its logical series
+	MaxTSDB      int  // cap on real-TSDB stores (default maxTSDBStores)
 }
 
 // Label alphabet. The replica label name "r" sorts between series label names ("j" < "r" < "z") so that
@@ -213,12 +218,21 @@ func genDataset(x *simkit.Exec, o genOpts) *dataset {
 		ds.ReplicaLabels = []string{"r"}
 	}
 	nStores := x.Range("nstores", 1, o.MaxStores)
+	nTSDB := 0
+	maxTSDB := maxTSDBStores
+	if o.MaxTSDB > 0 {
+		maxTSDB = o.MaxTSDB
+	}
 	for si := 0; si < nStores; si++ {
 		st := &mstore{Name: fmt.Sprintf("store-s%d", si), Kind: kindTSDB}
 		if o.ForceKind != "" {
 			st.Kind = o.ForceKind
-		} else if x.Bool("scripted", 1, 2) {
+		} else if x.Bool("scripted", 1, 2) || nTSDB >= maxTSDB {
+			// a real block costs ~20 MB of writer buffers to build: at most two per run
 			st.Kind = kindScripted
+		}
+		if st.Kind == kindTSDB {
+			nTSDB++
 		}
 		if st.Kind == kindScripted && o.AllowLegacy {
 			st.Legacy = x.Bool("legacy", 1, 2)
@@ -245,6 +259,9 @@ func genDataset(x *simkit.Exec, o genOpts) *dataset {
 			st.NoAdvertise = x.Bool("noadvertise", 1, 6)
 		}
 		window := x.Draw("window", 4) // 0 all, 1 head part, 2 tail part, 3 middle
+		if o.FullCopies {
+			window = 0
+		}
 		for li, lg := range ds.Logical {
 			if len(st.Series) >= o.MaxSeries {
 				break
@@ -367,7 +384,7 @@ func writeBlock(dir string, id uint64, st *mstore) (string, error) {
 	if err := os.MkdirAll(filepath.Join(bdir, "chunks"), 0o755); err != nil {
 		return "", err
 	}
-	cw, err := chunks.NewWriter(filepath.Join(bdir, "chunks"))
+	cw, err := chunks.NewWriter(filepath.Join(bdir, "chunks"), chunks.WithSegmentSize(1<<20))
 	if err != nil {
 		return "", err
 	}
@@ -431,23 +448,30 @@ func writeBlock(dir string, id uint64, st *mstore) (string, error) {
 
 // openFixtures writes and opens the blocks of all TSDB-kind stores. The returned function closes them.
 func (ds *dataset) openFixtures(x *simkit.Exec) (func(), bool) {
-	var opened []*tsdb.Block
+	var opened []*blockDB
+	// Block files are written with fsync by the TSDB writers; a memory file system keeps that cheap.
+	base := filepath.Join(x.TempDir(), "blocks")
+	if fi, err := os.Stat("/dev/shm"); err == nil && fi.IsDir() {
+		base = filepath.Join("/dev/shm", "verif-rcproxy", fmt.Sprintf("p%d-%s-%d", os.Getpid(), x.Prop, x.Seed))
+		_ = os.RemoveAll(base)
+	}
 	closeAll := func() {
 		for _, b := range opened {
-			_ = b.Close()
+			b.close()
 		}
+		_ = os.RemoveAll(base)
 	}
 	for i, st := range ds.Stores {
 		if st.Kind != kindTSDB {
 			continue
 		}
-		dir, err := writeBlock(filepath.Join(x.TempDir(), "blocks"), x.Seed*16+uint64(i), st)
+		dir, err := writeBlock(base, x.Seed*16+uint64(i), st)
 		if err != nil {
 			x.Troublef("write block for %s: %v", st.Name, err)
 			closeAll()
 			return nil, false
 		}
-		b, err := tsdb.OpenBlock(nil, dir, nil, nil)
+		b, err := openBlockDB(dir)
 		if err != nil {
 			x.Troublef("open block for %s: %v", st.Name, err)
 			closeAll()
@@ -459,17 +483,57 @@ func (ds *dataset) openFixtures(x *simkit.Exec) (func(), bool) {
 	return closeAll, true
 }
 
-// blockDB adapts one opened block to store.TSDBReader: real index/chunk readers, no head, no
-// background goroutines.
+// blockDB adapts one on-disk block to store.TSDBReader with the real TSDB index and chunk readers and
+// the real block chunk querier. It does not go through tsdb.Block because that type counts readers
+// with a sync.WaitGroup, which synctest binds to the first bubble that touches it; the fixture is
+// shared by all bubbles of a run. No head, no background goroutines.
 type blockDB struct {
-	b *tsdb.Block
+	meta tsdb.BlockMeta
+	ir   *index.Reader
+	cr   *chunks.Reader
 }
 
+func openBlockDB(dir string) (*blockDB, error) {
+	raw, err := os.ReadFile(filepath.Join(dir, "meta.json"))
+	if err != nil {
+		return nil, err
+	}
+	d := &blockDB{}
+	if err := json.Unmarshal(raw, &d.meta); err != nil {
+		return nil, err
+	}
+	if d.ir, err = index.NewFileReader(filepath.Join(dir, "index"), index.DecodePostingsRaw); err != nil {
+		return nil, err
+	}
+	if d.cr, err = chunks.NewDirReader(filepath.Join(dir, "chunks"), nil); err != nil {
+		_ = d.ir.Close()
+		return nil, err
+	}
+	return d, nil
+}
+
+func (d *blockDB) close() {
+	_ = d.ir.Close()
+	_ = d.cr.Close()
+}
+
+type nopCloseIndex struct{ tsdb.IndexReader }
+
+func (nopCloseIndex) Close() error { return nil }
+
+type nopCloseChunks struct{ tsdb.ChunkReader }
+
+func (nopCloseChunks) Close() error { return nil }
+
+func (d *blockDB) Index() (tsdb.IndexReader, error)       { return nopCloseIndex{d.ir}, nil }
+func (d *blockDB) Chunks() (tsdb.ChunkReader, error)      { return nopCloseChunks{d.cr}, nil }
+func (d *blockDB) Tombstones() (tombstones.Reader, error) { return tombstones.NewMemTombstones(), nil }
+func (d *blockDB) Meta() tsdb.BlockMeta                   { return d.meta }
+func (d *blockDB) Size() int64                            { return 0 }
+func (d *blockDB) StartTime() (int64, error)              { return d.meta.MinTime, nil }
 func (d *blockDB) ChunkQuerier(mint, maxt int64) (storage.ChunkQuerier, error) {
-	return tsdb.NewBlockChunkQuerier(d.b, mint, maxt)
+	return tsdb.NewBlockChunkQuerier(d, mint, maxt)
 }
-
-func (d *blockDB) StartTime() (int64, error) { return d.b.Meta().MinTime, nil }
 
 // ---------------------------------------------------------------------------------------------
 // Canonical forms.
